@@ -40,7 +40,7 @@ ACTIONS = ["ActReg", "ActUnreg", "ActRequire", "ActSetOut", "ActProvide", "ActRe
 QACTIONS = ["RunA", "RunB"]
 NEG = [("setout_keeps_old", "PathInv"), ("setout_no_reissue", "PathInv"),
        ("unreg_first_proxy", "PathInv"), ("death_keeps_regs", "StepNoSinkFreedWithRegs"),
-       ("oob_no_check", "StepNoCallbackAfterUnregister")]
+       ("oob_no_check", "StepNoCallbackAfterUnregister"), ("setout_one_pass", "OneEntry")]
 TYPEIDX = {"uref_mgr": 0, "flow_format": 1, "ubuf_mgr": 2, "uclock": 3, "sink_latency": 4}
 ENV = {"ASAN_OPTIONS": "detect_leaks=1:abort_on_error=0:exitcode=97",
        "UBSAN_OPTIONS": "print_stacktrace=1:halt_on_error=1:exitcode=98"}
